@@ -162,23 +162,38 @@ Section WithCodec.
     end.
 
   (* One write of the bulk fails with an I/O error (EFBIG/ENOSPC/EIO), no crash: the first `cut`
-     bytes of that write reach the file. FileWriter.Write has already advanced its offset by the
-     full length and does not take it back; ActiveWriter.Write returns the error (no index entry,
-     no acknowledgement). in_meta = false: the docs write fails (nothing else is attempted);
-     in_meta = true: the docs block is written and fsynced, the meta write fails. *)
-  Definition fault_ops (p : proc) (b : bulk) (in_meta : bool) (cut : nat) : list fop :=
+     bytes of that write reach the file. in_meta = false: the docs write fails (nothing else is
+     attempted); in_meta = true: the docs block is written and fsynced, the meta write fails.
+     ActiveWriter.Write then rolls the unit back (commit ce3aaa8): both writer offsets are stored
+     back and both files are truncated to the end of the last complete bulk (docs first, then
+     meta); the error is returned: no index entry, no acknowledgement. *)
+  Definition fault_writes (p : proc) (b : bulk) (in_meta : bool) (cut : nat) : list fop :=
     if in_meta
     then [W FDocs (off_d p) (dblock b); F FDocs] ++
          (if cut =? 0 then [] else [W FMeta (off_m p) (firstn cut (mblock b (off_d p)))])
     else (if cut =? 0 then [] else [W FDocs (off_d p) (firstn cut (dblock b))]).
 
+  Definition fault_ops (p : proc) (b : bulk) (in_meta : bool) (cut : nat) : list fop :=
+    fault_writes p b in_meta cut ++ [T FDocs (off_d p); T FMeta (off_m p)].
+
   Definition do_fault (d : disk) (p : proc) (b : bulk) (in_meta : bool) (cut : nat) : disk * proc :=
     let s := fold_left sapply (fault_ops p b in_meta cut)
+                       (SDisk (docs d) (meta d) (length (docs d)) (length (meta d))) in
+    (Disk (s_docs s) (s_meta s), p).
+
+  (* before commit ce3aaa8: nothing is undone, FileWriter keeps the advanced offsets *)
+  Definition do_fault_v0 (d : disk) (p : proc) (b : bulk) (in_meta : bool) (cut : nat) : disk * proc :=
+    let s := fold_left sapply (fault_writes p b in_meta cut)
                        (SDisk (docs d) (meta d) (length (docs d)) (length (meta d))) in
     (Disk (s_docs s) (s_meta s),
      Proc (off_d p + length (dblock b))
           (if in_meta then off_m p + length (mblock b (off_d p)) else off_m p)
           (idx p)).
+
+  (* the process dies (possibly with power loss) somewhere between the failing write and the end
+     of the rollback: a bytes of the docs block and c bytes of the meta block are in the files *)
+  Definition fault_crash (d : disk) (p : proc) (b : bulk) (a c : nat) : disk :=
+    Disk (docs d ++ firstn a (dblock b)) (meta d ++ firstn c (mblock b (off_d p))).
 
   (* the process dies inside the bulk: the first k operations completed, operation k+1 (if a
      write) reached the file with its first t bytes, then power is lost *)
@@ -308,6 +323,7 @@ Section WithCodec.
   | HBulk (b : bulk)                          (* acknowledged bulk (needs a running process) *)
   | HCrashIn (b : bulk) (k t kd km : nat)     (* process dies inside the bulk *)
   | HFault (b : bulk) (in_meta : bool) (cut : nat)   (* a write of the bulk fails; no acknowledgement *)
+  | HFaultCrash (b : bulk) (a c : nat)        (* ... and the process dies before the rollback is complete *)
   | HPower                                    (* idle process dies (power loss) *)
   | HRestart                                  (* (kill and) start the store *)
   | HRestartCrash.                            (* start-up dies between its two truncations *)
@@ -332,6 +348,8 @@ Section WithCodec.
     | HFault b in_meta cut, Some p =>
         let '(d', p') := do_fault (s_disk s) p b in_meta cut in
         Ok (St d' (Some p') (s_acked s) (s_tried s ++ [b]) (rev (fault_ops p b in_meta cut) ++ s_ops s))
+    | HFaultCrash b a c, Some p =>
+        Ok (St (fault_crash (s_disk s) p b a c) None (s_acked s) (s_tried s ++ [b]) (s_ops s))
     | HPower, Some p => Ok (St (s_disk s) None (s_acked s) (s_tried s) (s_ops s))
     | HRestart, _ =>
         match restart (s_disk s) with
@@ -388,7 +406,8 @@ Section WithCodec.
     dec_d (b_dpay b) = Some (raw_docs (b_docs b)).
 
   Definition hop_bulk (o : hop) : list bulk :=
-    match o with HBulk b => [b] | HCrashIn b _ _ _ _ => [b] | HFault b _ _ => [b] | _ => [] end.
+    match o with HBulk b => [b] | HCrashIn b _ _ _ _ => [b] | HFault b _ _ => [b]
+               | HFaultCrash b _ _ => [b] | _ => [] end.
   Definition hist_bulks (h : list hop) : list bulk := flat_map hop_bulk h.
 
   (* equal IDs carry equal documents (a retried bulk repeats its documents unchanged) *)
@@ -396,13 +415,30 @@ Section WithCodec.
     forall b1 b2 d1 d2, In b1 bs -> In b2 bs -> In d1 (b_docs b1) -> In d2 (b_docs b2) ->
       d_id d1 = d_id d2 -> d1 = d2.
 
-  Definition is_fault (o : hop) : bool := match o with HFault _ _ _ => true | _ => false end.
-  (* no write fails with an I/O error (crashes are allowed) *)
-  Definition fault_free (h : list hop) : Prop := Forall (fun o => is_fault o = false) h.
+  (* a crash inside a failed unit: the meta block is incomplete (the write failed part-way) *)
+  Definition crash_cut_ok (o : hop) : Prop :=
+    match o with HFaultCrash b _ c => c < length (mblock b 0) | _ => True end.
 
-  Definition wf_hist_faulty (h : list hop) : Prop :=
-    Forall wf_bulk (hist_bulks h) /\ ids_functional (hist_bulks h).
-  Definition wf_hist (h : list hop) : Prop := wf_hist_faulty h /\ fault_free h.
+  Definition wf_hist (h : list hop) : Prop :=
+    Forall wf_bulk (hist_bulks h) /\ ids_functional (hist_bulks h) /\ Forall crash_cut_ok h.
+
+  (* same history on the write path before commit ce3aaa8 (failed writes are not rolled back) *)
+  Definition step_f0 (s : st) (o : hop) : res st :=
+    match o, s_proc s with
+    | HFault b in_meta cut, Some p =>
+        let '(d', p') := do_fault_v0 (s_disk s) p b in_meta cut in
+        Ok (St d' (Some p') (s_acked s) (s_tried s ++ [b]) (rev (fault_writes p b in_meta cut) ++ s_ops s))
+    | _, _ => step s o
+    end.
+  Fixpoint run_from_f0 (s : st) (h : list hop) : res st :=
+    match h with
+    | [] => Ok s
+    | o :: r => match step_f0 s o with
+                | Ok s' => run_from_f0 s' r
+                | Panic => Panic | OutOfFuel => OutOfFuel
+                end
+    end.
+  Definition run_f0 (h : list hop) := run_from_f0 st0 h.
 
 End WithCodec.
 
